@@ -85,6 +85,9 @@ Proof.
     rewrite ?Hn', ?Hn, ?Hi, ?orb_true_r; try reflexivity; rewrite memt_filter; auto.
 Qed.
 
+Lemma type_ok_dedup ts d : type_ok (dedup_types ts) d = type_ok ts d.
+Proof. destruct d as [|x|z|f|s|l|l|tg]; try destruct f as [q| |]; cbn [type_ok]; now rewrite ?memt_dedup. Qed.
+
 Lemma forallb_ext' {A} (f g : A -> bool) l : (forall x, f x = g x) -> forallb f l = forallb g l.
 Proof. intros H. induction l as [|x r IH]; [reflexivity|]. cbn [forallb]. now rewrite H, IH. Qed.
 
@@ -196,7 +199,7 @@ Proof.
   { rewrite jvalid_empty. symmetry. apply existsb_exists. apply existsb_exists in He. destruct He as [r [Hin Hr]].
     exists r. split; [exact Hin|]. destruct r as [b|[|k l]]; try discriminate. apply jvalid_empty. }
   destruct (forallb (fun r => match only_type r with Some _ => true | None => false end) rs) eqn:Ho.
-  { rewrite jvalid_only_type, type_ok_norm.
+  { rewrite jvalid_only_type, type_ok_norm, type_ok_dedup.
     clear - Ho. induction rs as [|r l IH]; [destruct d as [|x|z|f|s|l|l|tg]; try destruct f; reflexivity|].
     cbn [forallb] in Ho. apply andb_true_iff in Ho. destruct Ho as [Hr Hl].
     cbn [flat_map existsb]. rewrite type_ok_app, IH by exact Hl.
